@@ -300,7 +300,10 @@ mod proofs_registry {
             }
             // a delivery that started after the removal returned runs the new list
             if ARCS::released[a0] > 0 && (ARCS::released_by[a0] != 0 || ARCS::released_in_delivery[a0]) {
-                flag(E_IN_HANDLER);
+                // decisive event: the release itself (it may lie in a later round
+                // of the other thread than the one this thread ends in)
+                let rr = ARCS::released_at[a0] / vshim::NT;
+                vshim::flag_at(E_IN_HANDLER, if rr > vshim::round() { rr } else { vshim::round() });
             }
         }
         let bad = vshim::lr_violation();
@@ -321,8 +324,6 @@ mod proofs_registry {
             assert!(e & E_IN_HANDLER == 0, "C01: [replayable] the removed action was released by the delivering thread / inside a signal handler");
             assert!(e & E_MIXTURE == 0, "C02: [replayable] a delivery overlapping unregister ran neither the old nor the new action list of its signal");
         }
-        kani::cover!(unsafe { ARCS::released_by[a0] } == 1 && vshim::consistent(), "opt: diag released by thread 1");
-        kani::cover!(unsafe { ARCS::released_in_delivery[a0] } && vshim::consistent(), "opt: diag released in delivery");
         kani::cover!(r0 >= 1 && r1 >= 1 && vshim::consistent(), "delivery overlapped the unregister (both threads ran in more than one round)");
         kani::cover!(unsafe { L::n == 3 } && r0 >= 1 && vshim::consistent(), "an overlapping delivery ran the old list");
         kani::cover!(unsafe { L::n == 2 } && vshim::consistent(), "a delivery ran the new list");
